@@ -111,6 +111,16 @@ theorem C01_finding_variant_ragged :
       wt env 4 .variant m = false :=
   ⟨_, _, rfl, rfl, rfl, rfl⟩
 
+/-- `[][]int32{nil, nil}`: `sliceDim` multiplies the "nil" count −1 of the inner slice by the outer length: array
+    length −2.  `Encode` writes `86 fe ff ff ff`, on which `Variant.Decode` panics (the witness of C02.variant-neg-len
+    is produced by the library's own constructor and encoder) -/
+theorem C01_finding_variant_nil_inner_slice :
+    ∃ m, newVariant ⟨6, 2⟩ (.slice false [.slice true [], .slice true []]) = .ok m ∧
+      encode env 3 .variant m = .ok [0x86, 0xfe, 0xff, 0xff, 0xff] ∧
+      decode env 3 .variant ⟨[0x86, 0xfe, 0xff, 0xff, 0xff], 0⟩ = .fail .panicNegLen ∧
+      wt env 3 .variant m = false :=
+  ⟨_, rfl, rfl, rfl, rfl⟩
+
 /-- an extension object whose value encodes to zero bytes (`&ua.DataTypeDefinition{}`, registered under i=121, has
     no fields): `ExtensionObject.Decode` treats body length 0 as "no value" and returns `Value == nil` -/
 theorem C01_finding_extobj_empty_body :
